@@ -808,6 +808,10 @@ class Interp:
                             m = self._match_str(self.norm_str(_as_absstr(x_)), kk)
                             if m is not None:
                                 return m
+            # two texts that begin with different known characters are different, whatever follows
+            ha, hb = (ua[0] if ua else None), (ub[0] if ub else None)
+            if isinstance(ha, str) and isinstance(hb, str) and ha and hb and ha[0] != hb[0]:
+                return False
             raise CannotDecide("string equality with runs: %r == %r" % (a, b))
         if type(a) in (int, bool, float, type(None)) and isinstance(b, (Ch, AbsStr)):
             return False
@@ -1036,7 +1040,7 @@ class Interp:
         if isinstance(v, AObj) and v.cls is not None and self.repo.find_method(v.cls, "__getitem__") is not None:
             return self.call_method(v, "__getitem__", [idx], {}, node)
         if isinstance(v, Sel) and isinstance(idx, int) and not isinstance(idx, bool) and v.table \
-                and all(isinstance(r, (tuple, list)) and -len(r) <= idx < len(r) for r in v.table):
+                and all(isinstance(r, (tuple, list, str)) and -len(r) <= idx < len(r) for r in v.table):
             # a column of the row picked by the symbolic index: the same pick from that column
             return Sel([r[idx] for r in v.table], v.index)
         if isinstance(idx, slice) and isinstance(v, (list, tuple, str, bytes)):
@@ -1264,6 +1268,15 @@ class Interp:
             r = regexdom.attribute(name)
             if r is not NotImplemented:
                 return r
+        if isinstance(v, ABuiltin) and v.name == "ext:sys.float_info" and name in ("epsilon", "max", "min", "dig", "mant_dig"):
+            import sys as _sys
+            return getattr(_sys.float_info, name)
+        if isinstance(v, ABuiltin) and v.name == "ext:sys" and name == "maxsize":
+            import sys as _sys
+            return _sys.maxsize
+        if isinstance(v, ABuiltin) and v.name == "ext:math" and name in ("pi", "e", "inf", "nan"):
+            import math as _math
+            return getattr(_math, name)
         if isinstance(v, ABuiltin) and v.name.startswith("ext:"):
             return ABuiltin(v.name + "." + name)
         if isinstance(v, ABuiltin) and v.name == "str" and name in ("lower", "upper"):
@@ -1514,6 +1527,13 @@ class Interp:
                     if len(args) > 1:
                         return args[1]
                     raise RaiseEx("KeyError", node)
+                if name == "get" and Lin.of(k) is not None and all(isinstance(kk, int) and not isinstance(kk, bool) for kk in recv):
+                    # a symbolic integer key: one path per entry it can be, one for "none of them"
+                    for kk in sorted(recv):
+                        lo_, hi_ = self.lin_interval(Lin.of(k))
+                        if lo_ <= kk <= hi_ and self.compare_lin(ast.Eq, Lin.of(k), kk):
+                            return recv[kk]
+                    return args[1] if len(args) > 1 else None
                 if name == "setdefault":
                     # abstract key (e.g. a malformed-input class): remember the entry under the abstract value's identity
                     for kk in list(recv):
@@ -1542,6 +1562,11 @@ class Interp:
                 raise RaiseEx(type(e).__name__, node)
         if isinstance(recv, (Ch, AbsStr)):
             return self.str_method(recv, name, args, node)
+        if isinstance(recv, int) and not isinstance(recv, bool) and name in ("bit_length", "to_bytes", "bit_count", "conjugate") and not _has_abs(args):
+            try:
+                return getattr(recv, name)(*args, **kwargs)
+            except (ValueError, TypeError, OverflowError) as e:
+                raise RaiseEx(type(e).__name__, node)
         if isinstance(recv, Opaque):
             self.events.append(("method", "?." + name, args, node))
             return Opaque("method:%s" % name, [recv] + list(args))
@@ -1602,6 +1627,62 @@ class Interp:
             if r == -1 and isinstance(r, int) and name.endswith("index"):
                 raise RaiseEx("ValueError", node)
             return r
+        if name in ("strip", "lstrip", "rstrip") and len(args) == 1 and isinstance(args[0], str) and args[0]:
+            # characters of a known set are taken off the ends: an atom goes when all it can be is in the set, the walk
+            # stops at an atom none of whose characters is in it; anything in between cannot be decided
+            chars = set(args[0])
+            atoms = list(self.norm_str(recv if isinstance(recv, AbsStr) else AbsStr([recv])).units())
+            fresh = [0]
+
+            def eat(seq):
+                out = list(seq)
+                while out:
+                    a = out[0]
+                    if isinstance(a, str):
+                        if a in chars:
+                            out.pop(0)
+                            continue
+                        return out
+                    if isinstance(a, Ch):
+                        r = a.contains_only(chars)
+                        if r is True:
+                            out.pop(0)
+                            continue
+                        if r is False:
+                            return out
+                        raise CannotDecide("%s(%r) at %r" % (name, args[0], a))
+                    if isinstance(a, Run):
+                        rs = [c.contains_only(chars) for c in a.classes]
+                        if all(r is True for r in rs):
+                            out.pop(0)
+                            continue
+                        if all(r is False for r in rs):
+                            # the run stays if it is not empty; if it is empty the walk goes on behind it
+                            total = Lin({}, 0)
+                            for sy in a.count.values():
+                                total = total + Lin.of(sy)
+                            if self.compare_lin(ast.Eq, total, 0):
+                                out.pop(0)
+                                continue
+                            return out
+                        outs = [c for c, r in zip(a.classes, rs) if r is False]
+                        if all(r is not None for r in rs) and len(outs) == 1:
+                            # characters of the set and one class outside it, in any order: nothing but the set's
+                            # characters (then the run goes), or the walk stops at the first character of that class
+                            # and what follows it is again any mixture (a new run; its counts are not related back)
+                            if self.compare_lin(ast.Eq, Lin.of(a.count[outs[0].name]), 0):
+                                out.pop(0)
+                                continue
+                            fresh[0] += 1
+                            return [outs[0], Run("%s~%d" % (a.name, fresh[0]), a.classes)] + out[1:]
+                        raise CannotDecide("%s(%r) at %r" % (name, args[0], a))
+                    raise CannotDecide("%s(%r) at %r" % (name, args[0], a))
+                return out
+            if name in ("strip", "lstrip"):
+                atoms = eat(atoms)
+            if name in ("strip", "rstrip"):
+                atoms = list(reversed(eat(list(reversed(atoms)))))
+            return simplify_str(AbsStr(atoms)) if atoms else ""
         if isinstance(recv, Ch) and name in ("lower", "upper", "islower", "isupper") and recv.members is not None:
             if name in ("islower", "isupper"):
                 vals = {getattr(c, name)() for c in recv.members}
